@@ -32,7 +32,9 @@ def run(ctx):
     unpack = [s for s in ins.body if isinstance(s, ast.Assign) and A.norm(s.value) == "msg_proc(msg)" and isinstance(s.targets[0], ast.Tuple)]
     ok = bool(unpack) and [A.norm(e) for e in unpack[0].targets[0].elts] == ["new_gen", "tail_gen"]
     ctx.ob("C21.D5-insertion", cname(f, None, "(head, tail) = msg_proc(msg)"), ok, "" if ok else "the processor's result is unpacked differently", where=where(f, ins))
-    ok = any(isinstance(s, ast.If) and A.norm(s.test) == "tail_gen is not None and new_gen is None" and [A.norm(x) for x in s.body] == ["new_gen = single_gen(msg)"] for s in ins.body)
+    def conj(t):
+        return sorted(A.norm(v) for v in (t.values if isinstance(t, ast.BoolOp) and isinstance(t.op, ast.And) else [t]))
+    ok = any(isinstance(s, ast.If) and conj(s.test) == ["new_gen is None", "tail_gen is not None"] and [A.norm(x) for x in s.body] == ["new_gen = single_gen(msg)"] for s in ins.body)
     ctx.ob("C21.D5-insertion", cname(f, None, "(None, tail): the original message becomes the head"), ok, "" if ok else "a tail without a head loses the original message", where=where(f, ins))
     br = [s for s in ins.body if isinstance(s, ast.If) and A.norm(s.test) == "new_gen is not None"]
     ok = bool(br) and [A.norm(x) for x in br[0].body if not isinstance(x, ast.Expr) or not isinstance(x.value, ast.Constant)] == [
@@ -68,12 +70,21 @@ def run(ctx):
     # exceptions in head/tail go to the plan below
     eh = [h for s in A.walk_stmts(f.node.body) if isinstance(s, ast.Try) for h in s.handlers
           if h.type is not None and A.norm(h.type) == "Exception" and any("plan_stack.pop()" in A.norm(x) for x in h.body)]
-    for i, h in enumerate(eh):
-        ok = bool(h.name) and any(isinstance(x, ast.If) and A.norm(x.test) == "plan_stack" and any(A.norm(y) == f"exception = {h.name}" for y in x.body)
-                                  and isinstance(x.body[-1], ast.Continue) for x in h.body)
-        branch = "throw branch" if any("throw(exception)" in A.norm(x) for t in A.walk_stmts(f.node.body) if isinstance(t, ast.Try) and h in t.handlers for x in t.body) else "send branch"
-        ctx.ob("C21.D5-exceptions-propagate-down", cname(f, None, f"{branch}: the exception the dead head/tail raised is what the plan below receives"), ok,
-               "" if ok else "the plan below is thrown a stale exception instead of the one the inserted plan actually raised", nontrivial=True, where=where(f, h))
+    # every way of going on with the plan below (`continue` inside such a handler) first stashes the exception just caught,
+    # and only when there is a plan below - whether the send and throw cases have a handler each or share one
+    for h in eh:
+        pm_ = A.parents(h)
+        for c_ in [x for x in A.walk_stmts(h.body) if isinstance(x, ast.Continue)]:
+            blk = None
+            up = pm_.get(c_)
+            if isinstance(up, ast.If) and c_ in up.body:
+                blk = up
+            ok = bool(h.name) and blk is not None and A.norm(blk.test) == "plan_stack" and len(blk.body) >= 2 and A.norm(blk.body[-2]) == f"exception = {h.name}" and blk.body[-1] is c_
+            tr_ = [t for t in A.walk_stmts(f.node.body) if isinstance(t, ast.Try) and h in t.handlers][0]
+            both = ".throw(" in A.norm(ast.Module(body=tr_.body, type_ignores=[])) and ".send(" in A.norm(ast.Module(body=tr_.body, type_ignores=[]))
+            branch = "shared handler" if both else ("throw branch" if ".throw(" in A.norm(ast.Module(body=tr_.body, type_ignores=[])) else "send branch")
+            ctx.ob("C21.D5-exceptions-propagate-down", cname(f, None, f"{branch}: the exception the dead head/tail raised is what the plan below receives"), ok,
+                   "" if ok else "the plan below is thrown a stale exception instead of the one the inserted plan actually raised", nontrivial=True, where=where(f, c_))
     ctx.expect("C21.D5-exceptions-propagate-down", 2)
     # inserted messages are not re-processed: identity bookkeeping + single_gen re-yields the same object
     ok = any(A.norm(x) == "msgs_seen[id(msg)] = msg" for x in ins.body)
